@@ -98,7 +98,11 @@ def run(ctx):
         ctx.sample({"O1": nm, "paths": len(res), "in_range_orders_seen": len(seen_in)})
     # get_number_of_quad_points
     for k in range(1, 21):
-        p, w = tg.rule(k)
+        try:
+            p, w = tg.rule(k)
+        except ValueError as ex_:
+            ctx.violation("O1/triangle/order%d/rejected" % k, "lookup", {"rule": "triangle"}, "documented order rejected: %s" % str(ex_)[:120])
+            continue
         if int(tg.get_number_of_quad_points(k)) != np.shape(w)[0]:
             ctx.violation("O1/triangle/npoints/%d" % k, "lookup", {"rule": "triangle", "order": k}, "get_number_of_quad_points != len(weights)")
     # Duffy point counts for symbolic n
@@ -111,7 +115,11 @@ def run(ctx):
     # ---------------- O2: exactness, triangle and Gauss
     t0 = time.time()
     for k in range(1, 21):
-        pts, w = tg.rule(k)
+        try:
+            pts, w = tg.rule(k)
+        except ValueError as ex_:
+            ctx.violation("O2/triangle/order%d/rejected" % k, "lookup", {"rule": "triangle"}, "documented order rejected: %s" % str(ex_)[:120])
+            continue
         P0 = [_fr(x) for x in pts[0]]
         P1 = [_fr(x) for x in pts[1]]
         W = [_fr(x) for x in w]
@@ -133,7 +141,11 @@ def run(ctx):
         ctx.concrete("tri_exact/%d" % k, "tri_exact", {"order": k})
     ctx.sample({"O2": "triangle order 20", "npoints": len(W), "monomials": len(mom), "max_abs_error": float(max(abs(e) for _, e in mom))})
     for k in range(1, 31):
-        x, w = g1.rule(k)
+        try:
+            x, w = g1.rule(k)
+        except ValueError as ex_:
+            ctx.violation("O2/gauss/order%d/rejected" % k, "lookup", {"rule": "gauss"}, "documented order rejected: %s" % str(ex_)[:120])
+            continue
         X = [_fr(v) for v in x]
         W = [_fr(v) for v in w]
         mom = [("%d" % d, sum(wi * xi**d for wi, xi in zip(W, X)) - F(1, d + 1)) for d in range(2 * k)]
